@@ -1,30 +1,29 @@
 (* C07 entry points of the extracted model, specification, observation and oracle. Written to coq/tt_c07.ml. *)
 From Coq Require Extraction ExtrOcamlBasic ExtrOcamlString.
 From Coq Require Import List Arith Ascii.
-Require Import TT.Model.Str TT.Model.C07TypeParse TT.Model.Harvest TT.Model.C07Reach.
+Require Import TT.Model.Str TT.Model.C07TypeParse TT.Model.C07Harvest TT.Model.C07Reach.
 Require Import TT.Spec.TsLex TT.Spec.TsModule TT.Spec.TsObs TT.Spec.C07Spec.
 Import ListNotations.
 
 Definition sx_names (l : list str) : sx := SL (map SA l).
 Definition sx_obs (o : obs) : sx := SL [sx_names (ob_types o); sx_names (ob_aliases o); sx_bool (ob_parsed o)].
 
-(* (in_domain (kf flags: result_map tuple_generic result_alias event_nested field_result odd_name inline_mod)
-    spec model? (obs ok corr)plain (obs ok corr)zod (agree_b event_nested_opt)) *)
+(* (in_domain (kf flags: result_map tuple_generic field_result odd_name inline_mod)
+    spec model? (obs ok corr)plain (obs ok corr)zod (agree_b)) *)
 Definition c07_eval (p : project) (plain zod : str) : sx :=
   let spec := reachable_spec p in
   let model := C07Reach.declared o_default p in
   let op := observe_plain plain in
   let oz := observe_zod zod in
   SL [sx_bool (in_domain p);
-      SL [sx_bool (kf_c07_result_map p); sx_bool (kf_c07_tuple_generic p); sx_bool (kf_c07_result_alias p);
-          sx_bool (kf_c07_event_nested p); sx_bool (kf_c07_field_result p); sx_bool (kf_c07_odd_name p);
-          sx_bool (kf_c07_inline_mod p)];
+      SL [sx_bool (kf_c07_result_map p); sx_bool (kf_c07_tuple_generic p);
+          sx_bool (kf_c07_field_result p); sx_bool (kf_c07_odd_name p); sx_bool (kf_c07_inline_mod p)];
       sx_names spec;
       sx_opt sx_names model;
       SL [sx_obs op; sx_bool (c07_ok spec op); sx_bool (c07_corr model op)];
       SL [sx_obs oz; sx_bool (c07_ok spec oz); sx_bool (c07_corr model oz)];
       (* the decidable premises of C07_exact *)
-      SL [sx_bool (agree_b p); sx_opt sx_bool (kf_c07_event_nested_opt p)]].
+      SL [sx_bool (agree_b p)]].
 
 (* the harvester alone, for the string-level stream *)
 Definition c07_harvest (s : str) : list str := dedup (extract_type_names s).
